@@ -26,7 +26,12 @@
                           + sigma^2 * (u^H u)
 
        computed with scalar sums of exact Gaussian rationals - no covariance matrices.
-       Cases with a zero denominator (infinite SINR, or 0/0) are excluded (`Valid`).
+       A zero denominator with a non-zero signal is an INFINITE SINR (<<1, 0>>, see Inf): the code may
+       report +inf or a huge positive number, never a negative one or NaN.  0 / 0 is undefined and
+       outside the property (`PowValid`).  Configurations with zf = TRUE build the ALIGNED regime
+       exactly (null-space precoders, zero-forcing filters: block diagonalisation in miniature).
+       Capacity vectors (`PickCapVec`) quantify "sum capacity = sum log2(1 + SINR)" over long vectors
+       of SINRs between 1e-7 and 1e+15.
 
    (2) THE ALGEBRA OF THE CODE (operators whose names start with A): B_kl = SUM_j H V V^H H^H + R_e - own stream,
        SINR = |u^H H f|^2 / (u^H B u), written with the exact matrix library CMat.  Fields of
